@@ -125,3 +125,46 @@ def run(seed, client_options=None, server_options=None, identity=None, trust=Non
         }
         setattr(res, name, info)
     return res
+
+
+def make_ca(name="aq throw-away CA"):
+    """self-signed CA certificate (EC P-256); returns (cert, key)"""
+    from cryptography import x509
+    from cryptography.hazmat.primitives import hashes
+    from cryptography.hazmat.primitives.asymmetric import ec
+    key = ec.generate_private_key(ec.SECP256R1())
+    now = datetime.datetime.now(datetime.timezone.utc)
+    subject = x509.Name([x509.NameAttribute(x509.NameOID.COMMON_NAME, name)])
+    cert = (x509.CertificateBuilder().subject_name(subject).issuer_name(subject).public_key(key.public_key())
+            .serial_number(x509.random_serial_number()).not_valid_before(now - datetime.timedelta(days=1))
+            .not_valid_after(now + datetime.timedelta(days=10))
+            .add_extension(x509.BasicConstraints(ca=True, path_length=None), critical=True)
+            .add_extension(x509.KeyUsage(digital_signature=True, key_cert_sign=True, crl_sign=True, content_commitment=False,
+                                         key_encipherment=False, data_encipherment=False, key_agreement=False,
+                                         encipher_only=False, decipher_only=False), critical=True)
+            .sign(key, hashes.SHA256()))
+    return cert, key
+
+
+def make_leaf(ca, ca_key, sans, common_name="leaf"):
+    """end-entity certificate signed by the CA; `sans` are DNS names or IP literals"""
+    import ipaddress
+    from cryptography import x509
+    from cryptography.hazmat.primitives import hashes
+    from cryptography.hazmat.primitives.asymmetric import ec
+    key = ec.generate_private_key(ec.SECP256R1())
+    now = datetime.datetime.now(datetime.timezone.utc)
+    names = []
+    for n in sans:
+        try:
+            names.append(x509.IPAddress(ipaddress.ip_address(n)))
+        except ValueError:
+            names.append(x509.DNSName(n))
+    cert = (x509.CertificateBuilder()
+            .subject_name(x509.Name([x509.NameAttribute(x509.NameOID.COMMON_NAME, common_name)]))
+            .issuer_name(ca.subject).public_key(key.public_key()).serial_number(x509.random_serial_number())
+            .not_valid_before(now - datetime.timedelta(days=1)).not_valid_after(now + datetime.timedelta(days=10))
+            .add_extension(x509.BasicConstraints(ca=False, path_length=None), critical=True)
+            .add_extension(x509.SubjectAlternativeName(names), critical=False)
+            .sign(ca_key, hashes.SHA256()))
+    return cert, key
